@@ -1,5 +1,4 @@
 CONSTANT SigCache = FALSE
-CONSTANT Devices <- FileDevices
 INIT GInit
 NEXT GNext
 INVARIANT TermLen
